@@ -2,7 +2,7 @@
    A case is a command number and groups of integers; the answer is groups of integers.
    Encoding conventions (harness/cmds.py mirrors them): booleans 0/1, option Z as [] / [v] inside
    a group or -1 where stated, errors as a leading status group. *)
-From CM Require Import lib.Prelude model.Startbit.
+From CM Require Import lib.Prelude model.Startbit model.Codec model.ArbId.
 
 Definition io := list (list Z).
 
@@ -23,9 +23,96 @@ Definition run_801 (a : list Z) : io :=
   | Some i => [[1; i]; map (fun n => get_startbit le size i (fst n) (snd n)) notations]
   end.
 
+(* ---- codec ---- *)
+(* a signal group: [name; start; size; le; signed; float] *)
+Definition sig_of (g : list Z) : signal :=
+  mkSignal (nthz g 0) (nthz g 1) (nthz g 2) (zb (nthz g 3)) (zb (nthz g 4)) (zb (nthz g 5)).
+Definition raw_out (r : option raw) : list Z :=
+  match r with None => [0] | Some (RInt v) => [1; v] | Some (RFloat p) => [2; p] end.
+Definition named_raw_out (nv : Z * raw) : list Z :=
+  match snd nv with RInt v => [fst nv; 1; v] | RFloat p => [fst nv; 2; p] end.
+(* data group: flat triples name kind value *)
+Fixpoint data_of (g : list Z) (fuel : nat) : list (Z * raw) :=
+  match fuel with
+  | O => []
+  | S f => match g with
+           | n :: k :: v :: r => (n, if k =? 2 then RFloat v else RInt v) :: data_of r f
+           | _ => []
+           end
+  end.
+
+(* 101: [sig] | data -> decode_signal ; 103: same args -> the convention's value (specification) *)
+Definition run_101 (sg d : list Z) : io := [raw_out (decode_signal d (8 * zlen d) (sig_of sg))].
+Definition run_103 (sg d : list Z) : io := [raw_out (Some (convention_value d (sig_of sg)))].
+(* 102: [fsize; at; ae] | data | sig ... -> frame_unpack *)
+Definition run_102 (h d : list Z) (sgs : io) : io :=
+  match frame_unpack (nthz h 0) (map sig_of sgs) (zb (nthz h 1)) (zb (nthz h 2)) d with
+  | ULengthError => [[0]]
+  | UConvError => [[1]]
+  | UOk vs => [2] :: map named_raw_out vs
+  end.
+(* 104: [fsize; at; ae] | data -> the gate alone *)
+Definition run_104 (h d : list Z) : io :=
+  match unpack_gate (nthz h 0) (zb (nthz h 1)) (zb (nthz h 2)) d with
+  | None => [[0]]
+  | Some d' => [[1]; d']
+  end.
+(* 201: [fsize] | data triples | sig ... -> signals_to_bytes *)
+Definition run_201 (h dg : list Z) (sgs : io) : io :=
+  match signals_to_bytes (nthz h 0) (map sig_of sgs) (data_of dg (length dg)) with
+  | None => [[0]]
+  | Some bytes => [[1]; bytes]
+  end.
+
+(* ---- identifiers ---- *)
+Definition oz (o : option Z) : Z := match o with Some v => v | None => -1 end.
+Definition arb_of (g : list Z) : arbid := (nthz g 0, zb (nthz g 1)).
+Definition arb_out (o : option arbid) : list Z :=
+  match o with None => [0] | Some a => [1; fst a; bz (snd a)] end.
+(* 901: [id; ext] -> constructor *)
+Definition run_901 (g : list Z) : io := [arb_out (mk_arbid (nthz g 0) (zb (nthz g 1)))].
+(* 902: [id; ext] -> all getters, -1 = raises; destination: -1 raises, -2 None *)
+Definition run_902 (g : list Z) : io :=
+  let a := arb_of g in
+  [[oz (j1939_source a); oz (j1939_ps a); oz (j1939_pf a); oz (j1939_dp a); oz (j1939_edp a);
+    oz (j1939_priority a); oz (pgn a);
+    match j1939_destination a with None => -1 | Some None => -2 | Some (Some v) => v end;
+    to_compound_integer a]].
+(* 903: [id; ext; which; value] -> setter result, which: 0 pgn, 1 source, 2 priority *)
+Definition run_903 (g : list Z) : io :=
+  let a := arb_of g in
+  let b := match nthz g 2 with 0 => set_pgn a (nthz g 3) | 1 => set_source a (nthz g 3) | _ => set_priority a (nthz g 3) end in
+  [[fst b; bz (snd b)]].
+(* 904: [i] -> from_compound_integer ; 905: [pgn] -> from_pgn and its .pgn *)
+Definition run_904 (g : list Z) : io := [arb_out (from_compound_integer (nthz g 0))].
+Definition run_905 (g : list Z) : io :=
+  match from_pgn (nthz g 0) with None => [[0]] | Some a => [[1; fst a; oz (pgn a)]] end.
+(* 906: [id; ext] | frames [uid; id; ext; j1939] ... -> decode_select ; 907: [pgn] | frames -> frame_by_pgn *)
+Definition fr_of (g : list Z) : fr := (nthz g 0, (nthz g 1, zb (nthz g 2)), zb (nthz g 3)).
+Definition run_906 (g : list Z) (fs : io) : io :=
+  match decode_select (arb_of g) (map fr_of fs) with
+  | SelFrame f => [[0; fr_uid f]] | SelEmpty => [[1]] | SelCrash => [[2]]
+  end.
+Definition run_907 (g : list Z) (fs : io) : io :=
+  match frame_by_pgn (nthz g 0) (map fr_of fs) with
+  | PFound f => [[0; fr_uid f]] | PNone => [[1]] | PErr => [[2]]
+  end.
+
 Definition run (cmd : Z) (a : io) : io :=
   match cmd, a with
   | 801, [g] => run_801 g
+  | 101, [sg; d] => run_101 sg d
+  | 103, [sg; d] => run_103 sg d
+  | 102, h :: d :: sgs => run_102 h d sgs
+  | 104, [h; d] => run_104 h d
+  | 201, h :: dg :: sgs => run_201 h dg sgs
+  | 901, [g] => run_901 g
+  | 902, [g] => run_902 g
+  | 903, [g] => run_903 g
+  | 904, [g] => run_904 g
+  | 905, [g] => run_905 g
+  | 906, g :: fs => run_906 g fs
+  | 907, g :: fs => run_907 g fs
   | _, _ => [[-999]]
   end.
 
